@@ -255,6 +255,25 @@ pub fn streams(ver: Ver, full: bool) -> Vec<Stream> {
         }
     }
     v.push(mk_stream(ver, vec![pubq(0, 300 * 1024, 6), ping.clone()]));
+    // v5: a PUBLISH whose property section is long enough for its length to take two (three) variable-byte-integer
+    // bytes - a read boundary may fall between them (seeded change C10_r12 reported a length cut short as malformed
+    // instead of asking for more data); likewise a Remaining Length of two and three bytes is covered by the sizes above
+    if ver == Ver::V5 {
+        let mut lens = vec![120usize, 126, 127, 128, 200];
+        if full {
+            lens.push(16_390);
+        }
+        for n in lens {
+            for qos in [0u8, 1] {
+                let mut p = rf::publish(qos, 7, "t", &payload(5, 1));
+                if let Pkt::Publish { props, .. } = &mut p {
+                    props.push((0x03, rf::PVal::Str("c".repeat(n))));
+                    props.push((0x26, rf::PVal::Pair("k".into(), "v".into())));
+                }
+                v.push(mk_stream(ver, vec![ping.clone(), p, puback.clone()]));
+            }
+        }
+    }
     v
 }
 
